@@ -1,0 +1,101 @@
+//! verification hooks, compiled only with `--cfg acts_verif`
+//!
+//! nothing in here changes the behaviour of the engine unless one of the
+//! switches (virtual clock, scheduler gate, manual tick) is turned on by the
+//! verification harness.
+use std::sync::Mutex;
+use std::sync::atomic::{AtomicBool, AtomicI64, Ordering};
+
+// ---- in-flight counter: queued signals, spawned dispatches, launches ----
+static INFLIGHT: AtomicI64 = AtomicI64::new(0);
+pub fn inc() {
+    INFLIGHT.fetch_add(1, Ordering::SeqCst);
+}
+pub fn dec() {
+    INFLIGHT.fetch_sub(1, Ordering::SeqCst);
+}
+pub fn inflight() -> i64 {
+    INFLIGHT.load(Ordering::SeqCst)
+}
+/// counts one unit of in-flight work from creation until drop
+pub struct InFlight;
+impl InFlight {
+    #[allow(clippy::new_without_default)]
+    pub fn new() -> Self {
+        inc();
+        InFlight
+    }
+}
+impl Drop for InFlight {
+    fn drop(&mut self) {
+        dec();
+    }
+}
+
+// ---- trace log ----
+static LOG_ON: AtomicBool = AtomicBool::new(false);
+static LOG: Mutex<Vec<String>> = Mutex::new(Vec::new());
+pub fn log_enable(on: bool) {
+    LOG_ON.store(on, Ordering::SeqCst);
+}
+pub fn log_on() -> bool {
+    LOG_ON.load(Ordering::SeqCst)
+}
+pub fn log(s: String) {
+    if log_on() {
+        LOG.lock().unwrap().push(s);
+    }
+}
+pub fn take_log() -> Vec<String> {
+    std::mem::take(&mut *LOG.lock().unwrap())
+}
+
+// ---- virtual clock: when enabled, time_millis() returns VCLOCK and every
+//      Task::set_state advances it by one ----
+static VENABLED: AtomicBool = AtomicBool::new(false);
+static VCLOCK: AtomicI64 = AtomicI64::new(0);
+pub fn clock_enable(start: i64) {
+    VCLOCK.store(start, Ordering::SeqCst);
+    VENABLED.store(true, Ordering::SeqCst);
+}
+pub fn clock_disable() {
+    VENABLED.store(false, Ordering::SeqCst);
+}
+pub fn clock_now() -> Option<i64> {
+    if VENABLED.load(Ordering::SeqCst) {
+        Some(VCLOCK.load(Ordering::SeqCst))
+    } else {
+        None
+    }
+}
+pub fn clock_advance(ms: i64) {
+    VCLOCK.fetch_add(ms, Ordering::SeqCst);
+}
+pub fn clock_bump() {
+    if VENABLED.load(Ordering::SeqCst) {
+        VCLOCK.fetch_add(1, Ordering::SeqCst);
+    }
+}
+
+// ---- manual tick: the interval loop stops emitting ticks ----
+static MANUAL_TICK: AtomicBool = AtomicBool::new(false);
+pub fn manual_tick(on: bool) {
+    MANUAL_TICK.store(on, Ordering::SeqCst);
+}
+pub fn is_manual_tick() -> bool {
+    MANUAL_TICK.load(Ordering::SeqCst)
+}
+
+// ---- scheduler gate: while closed the scheduler loop does not pop ----
+static GATE_CLOSED: AtomicBool = AtomicBool::new(false);
+pub fn gate_close() {
+    GATE_CLOSED.store(true, Ordering::SeqCst);
+}
+pub fn gate_open() {
+    GATE_CLOSED.store(false, Ordering::SeqCst);
+}
+pub async fn gate_wait() {
+    while GATE_CLOSED.load(Ordering::SeqCst) {
+        tokio::time::sleep(std::time::Duration::from_micros(50)).await;
+    }
+}
